@@ -66,6 +66,32 @@ func classifyRoot(prog *Program, v ssa.Value, seen map[ssa.Value]bool) rootClass
 		if ownedType(x.Type()) {
 			return rootClass{"owned-param", "parameter " + x.Name() + " of per-call type"}
 		}
+		// an unexported helper: the parameter is as fresh as what every caller passes
+		if fn := x.Parent(); fn != nil && prog.InModule(fn) && (fn.Object() == nil || !fn.Object().Exported()) && len(seen) < 12 {
+			idx := -1
+			for i, p := range fn.Params {
+				if p == x {
+					idx = i
+				}
+			}
+			if n := prog.CG.Nodes[fn]; n != nil && idx >= 0 && len(n.In) > 0 {
+				all := true
+				for _, e := range n.In {
+					if e.Site == nil || e.Site.Common().StaticCallee() != fn || idx >= len(e.Site.Common().Args) {
+						all = false
+						break
+					}
+					c := classifyRoot(prog, e.Site.Common().Args[idx], seen)
+					if c.class != "fresh" && c.class != "owned-param" {
+						all = false
+						break
+					}
+				}
+				if all {
+					return rootClass{"fresh", "parameter " + x.Name() + ": fresh at every call site"}
+				}
+			}
+		}
 		return rootClass{"shared", "parameter " + x.Name() + " (" + x.Type().String() + ")"}
 	case *ssa.FreeVar:
 		// a variable captured from the enclosing function: owned if it is a local of that function (or a per-call pointer)
